@@ -121,6 +121,87 @@ theorem redacted_kinds_tie :
       [chars% "User", chars% "Assistant", chars% "Thinking", chars% "Plan"] ∧
     Extracted.StorageMode.skippedKinds = [chars% "ToolUse"] := by decide
 
+/-! ### 2a. The `Default` arm: one upload per session, each of which may fail -/
+
+/-- the control flow the model's loop and arm are run with (`codeShape`) is the control flow the
+    extractor reads off `enqueue_prompt_messages_to_cas` / `apply_prompt_storage_mode`: a failing
+    `serde_json::to_value` / `enqueue_cas_object` propagates with `?`, url-set and
+    `messages.clear()` follow the enqueue unconditionally, every exit but the final `Ok(())` is an
+    `Err`, the arm strips on `Err` and when not enqueueing -/
+theorem enqueue_shape_tie : Extracted.StorageMode.enqueueShape = codeShape := by decide
+
+/-- the control flow found in the CURRENT sources is one of the safe shapes -/
+theorem current_shape_safe : shapeSafe Extracted.StorageMode.enqueueShape = true := by decide
+
+/-- **`default_mode_no_messages`.** Mode `default`, the code as it is: for EVERY classifier, every
+    login/API state, every state of the internal database and EVERY vector of per-session enqueue
+    outcomes (any session's INSERT may fail, in any combination), every prompt record handed to the
+    note serialiser has `messages = []`; the records are the input records in the same order; and a
+    `messages_url` is set exactly on the records with messages that precede the first failing
+    iteration (`setUrls … (okPrefix outs)`), and only when an upload was attempted and the database
+    opened. -/
+theorem default_mode_no_messages (sel : Str → Bool) (env : UploadEnv) (ps out : List Prompt)
+    (h : applyStorageMode sel env .default ps = some out) :
+    (∀ p ∈ out, p.messages = []) ∧
+    out = stripMessages (setUrls ps
+      (if env.shouldEnqueue && (env.cas (ps.map (specPrompt sel))).dbOpens
+       then okPrefix (env.cas (ps.map (specPrompt sel))).outs else [])) ∧
+    out.map (·.id) = ps.map (·.id) := by
+  have h' : defaultArm codeShape sel env ps = some out := h
+  refine ⟨defaultArm_no_messages codeShape codeShape_safe sel env ps out h', ?_, ?_⟩
+  · rw [defaultArm_code_eq] at h'
+    exact (Option.some.inj h').symm
+  · rw [defaultArm_code_eq] at h'
+    rw [← Option.some.inj h']
+    exact strip_setUrls_ids ps _
+
+/-- the same, for every control flow `shapeSafe` accepts (the statement the extracted tie feeds) -/
+theorem safe_shape_no_messages (sh : EnqShape) (hs : shapeSafe sh = true) (sel : Str → Bool)
+    (env : UploadEnv) (ps out : List Prompt) (h : defaultArm sh sel env ps = some out) :
+    ∀ p ∈ out, p.messages = [] := defaultArm_no_messages sh hs sel env ps out h
+
+theorem default_mode_no_messages_current (sel : Str → Bool) (env : UploadEnv) (ps out : List Prompt)
+    (h : defaultArm Extracted.StorageMode.enqueueShape sel env ps = some out) :
+    ∀ p ∈ out, p.messages = [] := safe_shape_no_messages _ current_shape_safe sel env ps out h
+
+/-- **`shapeSafe` is necessary**: under every control flow it rejects, some database state /
+    outcome vector makes the arm hand a transcript to the note serialiser. -/
+theorem unsafe_shape_leaks (sh : EnqShape) (hs : shapeSafe sh = false) (sel : Str → Bool) :
+    ∃ env ps out, defaultArm sh sel env ps = some out ∧ ∃ p ∈ out, p.messages ≠ [] :=
+  unsafe_shape_leaks_aux sh hs sel
+
+/-- the control flow of seeded regression C08-seed1 (a failing enqueue is logged and the loop
+    `continue`s; everything else unchanged) -/
+def seed1Shape : EnqShape := { codeShape with onEnqueueErr := .skip }
+
+theorem seed1_shape_rejected : shapeSafe seed1Shape = false := by decide
+
+/-- … and its failing input: two sessions in one commit, the first session's INSERT fails, the
+    second succeeds — the first session's transcript reaches the note -/
+theorem seed1_shape_leaks :
+    defaultArm seed1Shape (fun _ => false) ⟨true, fun _ => ⟨true, [.enqueueErr, .ok (chars% "u2")]⟩⟩
+      [⟨chars% "s1", [.user (chars% "secret talk")], none⟩, ⟨chars% "s2", [.user (chars% "more")], none⟩] =
+    some [⟨chars% "s1", [.user (chars% "secret talk")], none⟩, ⟨chars% "s2", [], some (chars% "u2")⟩] := by
+  decide
+
+/-! non-vacuity of `default_mode_no_messages`: the same two sessions through the code as it is,
+    under four outcome vectors (fail/ok, ok/fail, ok/ok, database does not open) and without upload -/
+example : applyStorageMode (fun _ => false) ⟨true, fun _ => ⟨true, [.enqueueErr, .ok (chars% "u2")]⟩⟩ .default
+      [⟨chars% "s1", [.user (chars% "secret talk")], none⟩, ⟨chars% "s2", [.user (chars% "more")], none⟩] =
+    some [⟨chars% "s1", [], none⟩, ⟨chars% "s2", [], none⟩] := by decide
+example : applyStorageMode (fun _ => false) ⟨true, fun _ => ⟨true, [.ok (chars% "u1"), .enqueueErr]⟩⟩ .default
+      [⟨chars% "s1", [.user (chars% "secret talk")], none⟩, ⟨chars% "s2", [.user (chars% "more")], none⟩] =
+    some [⟨chars% "s1", [], some (chars% "u1")⟩, ⟨chars% "s2", [], none⟩] := by decide
+example : applyStorageMode (fun _ => false) ⟨true, fun _ => ⟨true, [.ok (chars% "u1"), .ok (chars% "u2")]⟩⟩ .default
+      [⟨chars% "s1", [.user (chars% "secret talk")], none⟩, ⟨chars% "s0", [], none⟩,
+       ⟨chars% "s2", [.user (chars% "more")], none⟩] =
+    some [⟨chars% "s1", [], some (chars% "u1")⟩, ⟨chars% "s0", [], none⟩, ⟨chars% "s2", [], some (chars% "u2")⟩] := by
+  decide
+example : applyStorageMode (fun _ => false) ⟨true, fun _ => ⟨false, [.ok (chars% "u1")]⟩⟩ .default
+      [⟨chars% "s1", [.user (chars% "secret talk")], none⟩] = some [⟨chars% "s1", [], none⟩] := by decide
+example : applyStorageMode (fun _ => false) ⟨false, fun _ => ⟨true, [.ok (chars% "u1")]⟩⟩ .default
+      [⟨chars% "s1", [.user (chars% "secret talk")], none⟩] = some [⟨chars% "s1", [], none⟩] := by decide
+
 /-- no note under `refs/notes/ai` carries a message -/
 def NoTranscript (st : St) : Prop := NotesSat (· = []) st
 
@@ -359,7 +440,7 @@ theorem all_notes_masked_current (sel : Str → Bool) (env : UploadEnv) (mode : 
 
 /-- non-vacuity of the history theorems: a run through the current table's amend writer with
     a transcript in the working log ends with a note and no message (mode `default`) -/
-example : (run (fun _ => true) ⟨false, fun _ => none⟩ .default St.init
+example : (run (fun _ => true) ⟨false, fun _ => ⟨true, []⟩⟩ .default St.init
     [.checkpoint [⟨[], [.user (chars% "secret talk")], none⟩],
      .write ⟨"rewrite_authorship_after_commit_amend", "", .aiNotes, true, true⟩ [⟨0, true⟩]]).map (·.notes)
     = some [[⟨[], [], none⟩]] := by decide
@@ -376,6 +457,14 @@ end GitAi.Redact
 #print axioms GitAi.Redact.invalid_mode_string_never_notes
 #print axioms GitAi.Redact.policy_tie
 #print axioms GitAi.Redact.redacted_kinds_tie
+#print axioms GitAi.Redact.enqueue_shape_tie
+#print axioms GitAi.Redact.current_shape_safe
+#print axioms GitAi.Redact.default_mode_no_messages
+#print axioms GitAi.Redact.safe_shape_no_messages
+#print axioms GitAi.Redact.default_mode_no_messages_current
+#print axioms GitAi.Redact.unsafe_shape_leaks
+#print axioms GitAi.Redact.seed1_shape_rejected
+#print axioms GitAi.Redact.seed1_shape_leaks
 #print axioms GitAi.Redact.no_transcript_unless_notes
 #print axioms GitAi.Redact.current_table_ok
 #print axioms GitAi.Redact.no_transcript_unless_notes_current
